@@ -176,10 +176,16 @@ fn response(lo: usize, hi: usize) -> u8 {
     tamper(&orig, RESP, 1, lo, hi, 1, 1)
 }
 
+// Global unwind bound: 10 for regions that cannot change a type/length word (largest real loop:
+// the 8 draws of symbolic_rng); 40 where a type word may turn a 32-byte body into a placeholder
+// (33 iterations of its all-zero check).
 macro_rules! tamper_harness {
     ($name:ident, $f:ident, $lo:expr, $hi:expr, [$($code:expr => $msg:expr),*]) => {
+        tamper_harness!($name, $f, $lo, $hi, 10, [$($code => $msg),*]);
+    };
+    ($name:ident, $f:ident, $lo:expr, $hi:expr, $unw:expr, [$($code:expr => $msg:expr),*]) => {
         harness! {
-            #[kani::unwind(40)]
+            #[kani::unwind($unw)]
             fn $name() {
                 let code = $f($lo, $hi);
                 $( kani::cover!(code == $code, $msg); )*
@@ -191,18 +197,18 @@ const REJ: u8 = 0;
 const DEC: u8 = 1;
 const ACC: u8 = 2;
 // request: 48 header | 36 uid | 20 cookie | authenticator 8+16+16 | 4 trailer
-tamper_harness!(c25_req_header, request, 0, 48, [DEC => "detected by the AEAD", REJ => "framing broken (version bits)"]);
-tamper_harness!(c25_req_uid_hdr, request, 48, 52, [DEC => "detected by the AEAD", REJ => "framing broken"]);
+tamper_harness!(c25_req_header, request, 0, 48, 40, [DEC => "detected by the AEAD", REJ => "framing broken (version bits)"]);
+tamper_harness!(c25_req_uid_hdr, request, 48, 52, 40, [DEC => "detected by the AEAD", REJ => "framing broken"]);
 tamper_harness!(c25_req_uid_body, request, 52, 84, [DEC => "detected by the AEAD"]);
-tamper_harness!(c25_req_cookie_hdr, request, 84, 88, [DEC => "detected by the AEAD", REJ => "framing broken"]);
+tamper_harness!(c25_req_cookie_hdr, request, 84, 88, 40, [DEC => "detected by the AEAD", REJ => "framing broken"]);
 tamper_harness!(c25_req_cookie_body, request, 88, 104, [DEC => "detected by the AEAD"]);
-tamper_harness!(c25_req_auth_words, request, 104, 112, [DEC => "detected by the AEAD", REJ => "framing broken", ACC => "no longer an NTS field: accepted without any authenticated content"]);
+tamper_harness!(c25_req_auth_words, request, 104, 112, 40, [DEC => "detected by the AEAD", REJ => "framing broken", ACC => "no longer an NTS field: accepted without any authenticated content"]);
 tamper_harness!(c25_req_auth_body, request, 112, 144, [DEC => "detected by the AEAD"]);
 tamper_harness!(c25_req_trailer, request, 144, 148, [ACC => "trailer change tolerated, same authenticated content"]);
 // response: 48 header | 36 uid | authenticator 8+16+(20+16) | 4 trailer
-tamper_harness!(c25_resp_header, response, 0, 48, [DEC => "detected by the AEAD", REJ => "framing broken (version bits)"]);
-tamper_harness!(c25_resp_uid_hdr, response, 48, 52, [DEC => "detected by the AEAD", REJ => "framing broken"]);
+tamper_harness!(c25_resp_header, response, 0, 48, 40, [DEC => "detected by the AEAD", REJ => "framing broken (version bits)"]);
+tamper_harness!(c25_resp_uid_hdr, response, 48, 52, 40, [DEC => "detected by the AEAD", REJ => "framing broken"]);
 tamper_harness!(c25_resp_uid_body, response, 52, 84, [DEC => "detected by the AEAD"]);
-tamper_harness!(c25_resp_auth_words, response, 84, 92, [DEC => "detected by the AEAD", REJ => "framing broken", ACC => "no longer an NTS field: accepted without any authenticated content"]);
+tamper_harness!(c25_resp_auth_words, response, 84, 92, 40, [DEC => "detected by the AEAD", REJ => "framing broken", ACC => "no longer an NTS field: accepted without any authenticated content"]);
 tamper_harness!(c25_resp_auth_body, response, 92, 144, [DEC => "detected by the AEAD"]);
 tamper_harness!(c25_resp_trailer, response, 144, 148, [ACC => "trailer change tolerated, same authenticated content"]);
